@@ -4,7 +4,7 @@ from __future__ import annotations
 import ast
 
 from ..loader import dotted, AnchorError, is_self_attr, parent, short, src, walk_no_nested
-from ..locks import LockAnalysis, held_at, regions
+from ..locks import LockAnalysis, held_at, regions, _ordered_pair_lock_attrs
 from ..resolve import Resolver
 from ..rules import accessor_field, attr_writes, where
 
@@ -17,6 +17,30 @@ EXCLUDED = {
     "__init__": "construction: the object is not shared yet",
     "apply_debt_interest": "interest is explicitly outside the statement ('interest aside'); reported as INFO",
 }
+
+
+def _pair_covers(w, recv_name):
+    """is `recv_name` one of the two instances whose locks the ordered-pair with statement `w` holds?  (the names of the
+    unpacked pair are bound to a permutation of (self, <peer>): the peer is the other member)"""
+    names = {it.context_expr.value.id for it in w.items if isinstance(it.context_expr, ast.Attribute) and isinstance(it.context_expr.value, ast.Name)}
+    fn = parent(w)
+    while fn is not None and not isinstance(fn, (ast.FunctionDef, ast.AsyncFunctionDef)):
+        fn = parent(fn)
+    for st in ast.walk(fn) if fn is not None else ():
+        if isinstance(st, ast.Assign) and len(st.targets) == 1 and isinstance(st.targets[0], ast.Tuple) and {t.id for t in st.targets[0].elts if isinstance(t, ast.Name)} == names:
+            members = {y.id for y in ast.walk(st.value) if isinstance(y, ast.Name)}
+            if recv_name not in members:
+                return False
+            # … and the order must be a global one (by id()): a fixed (self, other) order deadlocks opposite-direction transfers
+            v = st.value
+            if isinstance(v, ast.IfExp) and isinstance(v.test, ast.Compare) and isinstance(v.body, ast.Tuple) and isinstance(v.orelse, ast.Tuple):
+                ids = [src(c.args[0]) for c in ast.walk(v.test) if isinstance(c, ast.Call) and isinstance(c.func, ast.Name) and c.func.id == "id" and len(c.args) == 1]
+                b, o = [src(x) for x in v.body.elts], [src(x) for x in v.orelse.elts]
+                return len(b) == 2 and o == b[::-1] and sorted(ids) == sorted(b)
+            if isinstance(v, ast.Call) and isinstance(v.func, ast.Name) and v.func.id == "sorted":
+                return any(k.arg == "key" and isinstance(k.value, ast.Name) and k.value.id == "id" for k in v.keywords)
+            return False
+    return False
 
 
 def run(p, led, tier):
@@ -128,6 +152,28 @@ def run(p, led, tier):
                 led.fail("C05-R2", key, where(m, regs[1]), f"{len(regs)} separate regions of the store lock in one operation: test and update can be separated by another thread")
 
     # ---- R3 nothing under the lock (re)acquires a store lock
+    # (a) directly: a with statement that takes another instance's lock while this one's is held (in the same statement or
+    #     an enclosing one) — unless both are taken through the id()-ordered pair idiom
+    for m in la.methods():
+        for w in walk_no_nested(m.node):
+            if not isinstance(w, ast.With):
+                continue
+            peers = [it_.context_expr for it_ in w.items if isinstance(it_.context_expr, ast.Attribute) and it_.context_expr.attr == lock
+                     and isinstance(it_.context_expr.value, ast.Name) and it_.context_expr.value.id != "self"]
+            if not peers:
+                continue
+            key = f"{m.qual} ▸ with {', '.join(src(x) for x in peers)}"
+            if lock in _ordered_pair_lock_attrs(w):
+                if _pair_covers(w, "self"):
+                    led.ok("C05-R3", key, where(m, w), "both instances' locks are taken in one global order (by id()): opposite-direction calls cannot wait for each other")
+                else:
+                    led.fail("C05-R3", key, where(m, w), "takes two stores' locks in an order that is not global (not by id()): opposite-direction transfers deadlock",
+                             witness="a.transfer_to(b) and b.transfer_to(a) concurrently: each holds its own lock and waits for the other's")
+                continue
+            own_here = any(isinstance(it_.context_expr, ast.Attribute) and is_self_attr(it_.context_expr) and it_.context_expr.attr == lock for it_ in w.items)
+            if own_here or lock in held_at(w, la.locks):
+                led.fail("C05-R3", key, where(m, w), "acquires a peer store's lock while holding its own: opposite-direction transfers deadlock",
+                         witness="a.transfer_to(b) and b.transfer_to(a) concurrently: each holds its own lock and waits for the other's")
     for m in la.methods():
         for w, a in regions(m, la.locks):
             if a != lock:
@@ -146,6 +192,12 @@ def run(p, led, tier):
                                 recv = src(c.func.value) if isinstance(c.func, ast.Attribute) else "?"
                                 same = recv == "self"
                                 if same and kind == "RLock":
+                                    continue
+                                if not same and kind == "RLock" and isinstance(w, ast.With) and lock in _ordered_pair_lock_attrs(w) and \
+                                        any(isinstance(it_.context_expr, ast.Attribute) and it_.context_expr.attr == lock for it_ in w.items) and \
+                                        _pair_covers(w, recv):
+                                    # both stores' locks were taken up front, in one global order, by this very with statement: the
+                                    # peer's (re-entrant) lock is already ours, the call cannot wait for anyone
                                     continue
                                 bad = True
                                 led.fail("C05-R3", f"{m.qual} ▸ under lock ▸ {short(c, 50)}", where(m, c),
